@@ -111,7 +111,7 @@ def write_and_read(ctx, st, texts, tag):
                 why = arrays_identical(arrays[0], np.asarray(t2.as_array()))
                 if why:
                     problems.append('Table %s round trip: %s' % (way, why))
-                want_meta = dict(hdr) if hdr else {}
+                want_meta = {k: str(v) for k, v in hdr.items()} if hdr else {}
                 if {k: str(v) for k, v in t2.meta.items()} != want_meta:
                     problems.append('Table %s meta: wrote %r read %r' % (way, want_meta, dict(t2.meta)))
                 if way == 'function':
